@@ -412,6 +412,7 @@ type agg struct {
 	skips                     map[string]int
 	samples                   []any
 	wallMs                    float64
+	corpus                    int
 }
 
 func newAgg() *agg {
@@ -644,6 +645,37 @@ func cmdRun(args []string) {
 			infra = append(infra, fmt.Sprintf("worker %d exited with code %d%s:\n%s", w, r.exitCode, where, tail))
 		}
 	}
+	// directed corpus: minimised scenarios of earlier findings (and hand-written edge cases) are
+	// replayed on every check, so that a listed finding is demonstrated deterministically and a
+	// repaired one is seen to stay repaired
+	corpus, _ := filepath.Glob(filepath.Join(verifDir, "corpus", p.ID, "*.json"))
+	sort.Strings(corpus)
+	for i, cf := range corpus {
+		data, err := os.ReadFile(cf)
+		if err != nil {
+			continue
+		}
+		var file struct {
+			Scenario json.RawMessage `json:"scenario"`
+		}
+		if json.Unmarshal(data, &file) != nil || len(file.Scenario) == 0 {
+			infra = append(infra, "corpus file "+cf+" is not a replay file")
+			continue
+		}
+		rr := runWorker(bin, job{Mode: "replay", Property: p.ID, Scenario: file.Scenario}, b.scratch, fmt.Sprintf("corpus%d", i), 120*time.Second)
+		if len(rr.records) == 0 || rr.records[0].Outcome == nil {
+			infra = append(infra, fmt.Sprintf("corpus replay %s produced no record (exit %d): %s", cf, rr.exitCode, tailStr(rr.stderr)))
+			continue
+		}
+		rec := rr.records[0]
+		rec.Run = -len(corpus) + i
+		rec.Scenario = file.Scenario
+		a.add(rec)
+		a.corpus++
+		if rec.Outcome.Violation != nil {
+			viols = append(viols, viol{rec})
+		}
+	}
 	known := loadFindings()
 	if *scan {
 		type ex struct {
@@ -736,7 +768,7 @@ func cmdRun(args []string) {
 		fmt.Printf("  class=%s sig=%q\n  %s\n", res.class, res.sig, res.detail)
 	}
 	wall := time.Since(t0).Seconds()
-	writeEvidence(p, *tier, seed, a, wall, nViol, nKnown, map[string]any{"workers": *workers, "search_budget_s": bs, "infrastructure_problems": len(infra), "unreproduced_violations_not_reported": unrepro})
+	writeEvidence(p, *tier, seed, a, wall, nViol, nKnown, map[string]any{"workers": *workers, "search_budget_s": bs, "directed_corpus_scenarios_replayed": a.corpus, "infrastructure_problems": len(infra), "unreproduced_violations_not_reported": unrepro})
 	fmt.Printf("vcheck: %s runs=%d skipped=%d nontrivial=%d evals=%d sim_time=%.3fs wall=%.1fs violations=%d known=%d\n",
 		p.ID, a.runs, a.skipped, a.nontrivial, a.evals, float64(a.simNs)/1e9, wall, nViol, nKnown)
 	if nViol > 0 {
